@@ -272,11 +272,11 @@ def _pairing_obligations(vc, env, out):
     early = [p for p in env.cancelled_at if p in ("hook:ServerConnectHook", "sem_acquire")]
     vc.ensure_kf("server_connect.then_exactly_one_outcome", n_connect == 0 or n_ok + n_err == 1, "KF-C09-1", len(early) > 0)
     late = [p for p in env.cancelled_at if p == "hook:ServerConnectedHook"]
-    vc.ensure_kf("server_connected.then_exactly_one_disconnected", n_disc == n_ok and (n_ok == 0 or hooks.index("ServerConnectedHook") < hooks.index("ServerDisconnectedHook")), "KF-C09-2", len(late) > 0)
+    vc.ensure("server_connected.then_exactly_one_disconnected", n_disc == n_ok and (n_ok == 0 or hooks.index("ServerConnectedHook") < hooks.index("ServerDisconnectedHook")))  # was recorded finding KF-C09-2, repaired in /repo (see known_findings.d/C09.json)
     vc.ensure("server_disconnected.is_last_hook", n_disc == 0 or hooks[-1] == "ServerDisconnectedHook")
-    vc.ensure_kf("exit.no_socket_left_registered", env._io() is None or isnone(env._io().writer) or env._io().writer.closed > 0, "KF-C09-2", len(late) > 0)
+    vc.ensure("exit.no_socket_left_registered", env._io() is None or isnone(env._io().writer) or env._io().writer.closed > 0)  # was recorded finding KF-C09-2, repaired in /repo (see known_findings.d/C09.json)
     vc.ensure("exit.semaphore_released", env.sem.held == 0)
-    vc.ensure_kf("exit.not_open", Not(flag_has(env.server.state, env.S.CAN_READ)), "KF-C09-2", len(late) > 0)
+    vc.ensure("exit.not_open", Not(flag_has(env.server.state, env.S.CAN_READ)))  # was recorded finding KF-C09-2, repaired in /repo (see known_findings.d/C09.json)
     vc.ensure("cancellation_propagates_or_completes", out.ok or out.raised_type() is _cancelled())
     vc.ensure("normal_return_only_if_not_cancelled_in_connection", out.ok or len(env.cancelled_at) > 0)
 
